@@ -14,7 +14,7 @@ func rtErr(fr *frame, msg string) targetPanic {
 }
 
 func moreRtypeMethods(i *interpreter) {
-	for _, n := range []string{"Comparable", "Name", "PkgPath", "Len", "Implements", "AssignableTo", "ConvertibleTo", "FieldByIndex", "NumMethod2"} {
+	for _, n := range []string{"Comparable", "Name", "PkgPath", "Len", "Implements", "AssignableTo", "ConvertibleTo", "FieldByIndex"} {
 		i.rtypeMethods[n] = newMethod(i.reflectPackage, rtypeType, n)
 	}
 }
@@ -187,4 +187,37 @@ func init() {
 	}
 	_ = reflect.Int
 	_ = fmt.Sprint
+}
+
+func init() {
+	externals["(reflect.rtype).FieldByIndex"] = func(fr *frame, a []value) value {
+		t := a[0].(rtype).t
+		var f *types.Var
+		var tag string
+		for _, ix := range a[1].([]value) {
+			st, ok := t.Underlying().(*types.Struct)
+			if !ok {
+				if pt, ok2 := t.Underlying().(*types.Pointer); ok2 {
+					st, ok = pt.Elem().Underlying().(*types.Struct)
+				}
+				if !ok {
+					panic(rtErr(fr, "reflect: Field index out of bounds"))
+				}
+			}
+			i := ix.(int)
+			if i < 0 || i >= st.NumFields() {
+				panic(rtErr(fr, "reflect: Field index out of bounds"))
+			}
+			f, tag = st.Field(i), st.Tag(i)
+			t = f.Type()
+		}
+		sfT := fr.i.prog.ImportedPackage("reflect").Type("StructField").Type()
+		z := zero(sfT).(structure)
+		if f != nil {
+			z[0] = f.Name()
+			z[2] = makeReflectType(rtype{f.Type()})
+			z[3] = tag
+		}
+		return z
+	}
 }
